@@ -1291,7 +1291,7 @@ Definition good_request : list header :=
   [ (s2z ":method", s2z "POST"); (s2z ":scheme", s2z "http"); (s2z ":path", s2z "/v.S/M");
     (s2z ":authority", s2z "x"); (s2z "te", s2z "trailers"); (s2z "content-type", s2z "application/grpc") ].
 Definition known_paths : list (list Z) := [s2z "/v.S/M"].
-Definition std_env (c : card) (x : extk) : env := mkE c 1 false true x None.
+Definition std_env (c : card) (x : extk) : env := mkE c 1 false true x None false.
 
 (* FULL STATEMENT (false):
      forall known hs e p, let r := run_call known hs e p in
